@@ -50,10 +50,11 @@ ASSUMPTIONS = [
 EXHAUSTIVE_SCOPE = {
   "quick": "static: every directed multigraph on <= 3 labelled switches with 2 cable slots per pair and each direction "
            "independently present (16 states per pair), and on 4 switches with 5 states per pair {none, one-way, link, one-way + "
-           "link, 2 links}; topo: every graph on <= 3 switches with 16 states per pair, run to convergence through the real "
+           "link, 2 links}; topo: every graph on 2 switches with 16 states per pair and on 3 switches with 7 states per pair "
+           "{none, one-way either direction, link, one-way + link either order, 2 links}, run to convergence through the real "
            "controller and switches",
   "thorough": "static: additionally 5 switches with 3 states per pair {none, link, one-way + link} and 4 switches with 7 states; "
-              "topo: additionally every graph on 4 switches with 5 states per pair",
+              "topo: every graph on <= 3 switches with 16 states per pair and on 4 switches with 5 states per pair",
 }
 
 _S = {}
@@ -563,7 +564,7 @@ def _converge_ops(n):
 
 
 def enum_topo(tier):
-  plans = [(2, _PAIR16), (3, _PAIR16)] if tier == "quick" else [(2, _PAIR16), (3, _PAIR16), (4, _PAIR5)]
+  plans = [(2, _PAIR16), (3, _PAIR7)] if tier == "quick" else [(2, _PAIR16), (3, _PAIR16), (4, _PAIR5)]
   for n, states in plans:
     for cables in _graphs(n, states):
       if not cables:
@@ -693,7 +694,7 @@ def plan(tier):
             Enum("converge-small-graphs", lambda: enum_topo("quick"), shards=16),
             Hyp("probe-random", _probe, examples=400, shards=4),
             Hyp("static-random", lambda: _static(8), examples=2000, shards=4),
-            Hyp("histories", lambda: _topo(5, 8), examples=1920, shards=16)]
+            Hyp("histories", lambda: _topo(5, 8), examples=1440, shards=16)]
   return [Enum("static-graphs", lambda: enum_static("thorough"), shards=16),
           Enum("probe-boundaries", lambda: enum_probe("thorough"), shards=8),
           Enum("converge-small-graphs", lambda: enum_topo("thorough"), shards=16),
